@@ -112,6 +112,38 @@ class Result:
         self.violations = []       # (case, reasons, kind)
         self.known = []
 
+# ---- comparison of observations in forked workers (the inputs are inherited, only the differences travel back) -------------------------
+_PC = None
+def _pc_range(rng_):
+    chk, chunk, c_impl, c_model = _PC
+    out = []
+    for c in chunk[rng_[0]:rng_[1]]:
+        if c.meta.get('impl_only'):
+            out.append([]); continue
+        out.append(vf.compare_case(c, c_impl.get(c.cid, []), c_model.get(c.cid, []), chk.case_tol(c), chk.strict_err_ops))
+    return out
+
+def parallel_compare(chk, chunk, c_impl, c_model):
+    global _PC
+    n = len(chunk)
+    if n < 400:
+        _PC = (chk, chunk, c_impl, c_model)
+        try:
+            return _pc_range((0, n))
+        finally:
+            _PC = None
+    import multiprocessing
+    _PC = (chk, chunk, c_impl, c_model)
+    try:
+        k = min(vf.NCPU, 16)
+        step = max(50, (n + 4 * k - 1) // (4 * k))
+        ranges = [(i, min(n, i + step)) for i in range(0, n, step)]
+        with multiprocessing.get_context('fork').Pool(k) as pool:
+            parts = pool.map(_pc_range, ranges)
+        return [d for part in parts for d in part]
+    finally:
+        _PC = None
+
 class PropCheck:
     """subclass per property: override gen_cases(tier, rng), nontrivial(case), predicate(case, impl_lines)"""
     pid = 'C00'
@@ -241,10 +273,11 @@ class PropCheck:
             if not chunk:
                 continue
             c_impl, c_model = vf.run_cases(chunk, self.workdir, timeout=self.timeout)
-            for c in chunk:
+            diffs = parallel_compare(self, chunk, c_impl, c_model)
+            for ci, c in enumerate(chunk):
                 il = c_impl.get(c.cid, [])
                 ml = c_model.get(c.cid, [])
-                d = [] if c.meta.get('impl_only') else vf.compare_case(c, il, ml, self.case_tol(c), self.strict_err_ops)
+                d = diffs[ci]
                 try:
                     p = self.predicate(c, il)
                 except Exception as ex:      # e.g. a dump that is not a tree at all: the oracle cannot even be evaluated
